@@ -3592,6 +3592,10 @@ impl Zeroconf {
             // If there is already a `listener`, it will be updated, i.e. overwritten.
             self.service_queriers.insert(ty.clone(), listener.clone());
 
+            // A new browse replaces the query schedule of an earlier browse of the same type.
+            self.retransmissions
+                .retain(|r| !matches!(&r.command, Command::Browse(t, _, _, _) if t == &ty));
+
             // if we already have the records in our cache, just send them
             self.query_cache_for_service(&ty, &listener, now);
         }
@@ -3634,6 +3638,11 @@ impl Zeroconf {
             return;
         }
         if !repeating {
+            // A new resolve replaces the query schedule of an earlier one for the same name.
+            let hostname_lower = hostname.to_lowercase();
+            self.retransmissions.retain(|r| {
+                !matches!(&r.command, Command::ResolveHostname(h, _, _, _) if h.to_lowercase() == hostname_lower)
+            });
             self.add_hostname_resolver(hostname.to_owned(), listener.clone(), timeout);
             // if we already have the records in our cache, just send them
             self.query_cache_for_hostname(&hostname, listener.clone());
